@@ -54,11 +54,12 @@ const (
 	CAdvance
 	CBulkInsert // macro: insert N forever-keys outside the alphabet (forces grows)
 	CBulkDelete // macro: delete them again (forces shrinks)
+	CTick       // the janitor's ticker fires once (a no-op if the cache has no janitor)
 )
 
 var copNames = [...]string{"Set", "SetDefault", "SetForever", "Get", "GetWithExpiration", "GetWithTTL", "GetOrSet", "GetAndSet",
 	"GetAndRefresh", "GetOrCompute", "Compute", "GetAndDelete", "Delete", "DeleteExpired", "DeleteExpired@key", "Range", "Range@key", "Range(nil)",
-	"Items", "Clear", "Count", "SetDefaultExpiration", "DefaultExpiration", "SetEvictedCallback", "Advance", "BulkInsert", "BulkDelete"}
+	"Items", "Clear", "Count", "SetDefaultExpiration", "DefaultExpiration", "SetEvictedCallback", "Advance", "BulkInsert", "BulkDelete", "Tick"}
 
 func (o COp) String() string { return copNames[o] }
 
@@ -155,6 +156,7 @@ type CState struct {
 	Def  time.Duration
 	CB   int8
 	Bulk bool // the bulk keys are present
+	Jan  bool // the cache has a janitor (cleanup interval > 0)
 }
 
 func (s *CState) live(k int) bool {
@@ -297,6 +299,11 @@ func cacheApply(s CState, in CIn) (CExpect, CState) {
 			ex.Out = COut{Fired: firedStr(s.CB, k, s.Ent[k].V)}
 			s.Ent[k] = CEntry{}
 		}
+	case CTick:
+		if !s.Jan {
+			break
+		}
+		fallthrough
 	case CDeleteExpired:
 		var f []string
 		for i := 0; i < NKC; i++ {
